@@ -53,6 +53,17 @@ func (c *sctx) guard(prop, api, args string, fn func()) {
 	fn()
 }
 
+func contentHash(b []byte) int {
+	h := len(b)
+	for _, x := range b {
+		h = h*31 + int(x)
+	}
+	if h < 0 {
+		h = -h
+	}
+	return h
+}
+
 func eqInts(a, b []int) bool {
 	if len(a) != len(b) {
 		return false
@@ -116,7 +127,7 @@ func (c *sctx) c01(want bool, idx int) int {
 	chk("MatchReader", func() bool { return c.cg.MatchReader(bytes.NewReader(c.b)) })
 	if c.mode == "first" {
 		chk("Engine.IsMatch", func() bool { return c.eng.IsMatch(c.b) })
-		if idx%17 == 3 { // the package-level functions recompile: exercised on a fixed subset
+		if contentHash(c.b)%17 == 3 { // the package-level functions recompile: exercised on a fixed (content-defined) subset
 			chk("pkg.Match", func() bool { m, err := coregex.Match(c.pat, c.b); return m && err == nil })
 			chk("pkg.MatchString", func() bool { m, err := coregex.MatchString(c.pat, c.s); return m && err == nil })
 			chk("pkg.MatchReader", func() bool {
